@@ -2,7 +2,7 @@
 //! authority.
 //!
 //! Sub-checks (oracle clauses as in DESIGN §5 C19):
-//! * `known_findings` — fixed reproductions of the listed findings K1–K6, K8, K9;
+//! * `known_findings` — fixed reproductions of the listed findings K1–K6, K8–K11;
 //! * `two_worlds` — (a) T8 two-world non-interference of a reader's complete
 //!   response stream, (b) the reference decision function on the unambiguous
 //!   sub-family;
@@ -39,6 +39,7 @@ pub const K5: &str = "HISTORY ELEMENT of an unreadable id lists the transactions
 pub const K6: &str = "SEARCH matches on masked fields: a field mask can be probed by which hits come back";
 pub const K9: &str = "a policy deny naming the delegator does not reach its delegates: the delegate keeps what the delegator no longer holds";
 pub const K10: &str = "ENSURE PROPOSITION / UPSERT naming the identity (tuple / key) of an element the caller may not read resolves to it: no_effect and the hidden element's id instead of a creation";
+pub const K11: &str = "a suspended or revoked intermediate delegator does not stop the re-delegation it made: the re-delegate keeps what the intermediate delegator no longer holds";
 pub const K8: &str = "PREVIEW KML (and a mutation) aimed at an unreadable id is refused with NotAuthorized, at a never-assigned id with NotFoundOrNotVisible (existence leak)";
 
 /// Is `sig` still a LISTED finding? A repaired one (`fixed`) suppresses nothing: its pattern is a
@@ -537,11 +538,11 @@ fn strip_principal(v: &anda_kip::Json) -> anda_kip::Json {
 pub fn run(r: &mut Runner) {
     r.assume("R(p) is observed: the principal asks for each element by id (with its state) in the world that holds everything; a refused command reads nothing");
     r.assume("both worlds are built by the same script through owner KML and the host control plane; responses are compared after renaming element ids through the script's labels and normalising RFC 3339 timestamps, transaction ids and *seq numbers (order-only, relative to the transactions the reader can see), snapshot tokens and content digests");
-    r.assume("the listed findings K1-K6, K8, K9 are excluded by construction or attributed and counted exactly as described in the sub-check rules (K1: reference-closed readable sets; K2/K3/K6: two-layer SEARCH comparison; K4: historical coordinates at which a now-unreadable element was readable are not compared; K5/K8: HISTORY ELEMENT / writes / PREVIEW KML are aimed at readable or never-assigned ids only; K9: the subset relation to a delegator that a policy statement denies is counted, not asserted); a deny of `read` naming the observed reader is generated without a resource scope, delegations run from lower to higher principals (no cycles); validity windows are years away from the wall clock (expired / not yet valid / covering), the live expiry transition is not covered");
+    r.assume("the listed findings K1-K6, K8, K9 are excluded by construction or attributed and counted exactly as described in the sub-check rules (K1: reference-closed readable sets; K2/K3/K6: two-layer SEARCH comparison; K4: historical coordinates at which a now-unreadable element was readable are not compared; K5/K8: HISTORY ELEMENT / writes / PREVIEW KML are aimed at readable or never-assigned ids only; K9: the subset relation to a delegator that a policy statement denies is counted, not asserted; K11: what a re-delegate keeps while the intermediate delegator of its chain is suspended / revoked is counted, not asserted, everything else about that step is); a deny of `read` naming the observed reader is generated without a resource scope, delegations run from lower to higher principals (no cycles); validity windows are years away from the wall clock (expired / not yet valid / covering), the live expiry transition is not covered");
     r.set_case_timeout_ms(180_000);
     r.sub_enum(
         "known_findings",
-        "fixed reproductions of the listed findings: K1 reference disclosure, K2 SEARCH scores, K3 SEARCH over-fetch window, K4 AS OF admits by historical classification, K5 HISTORY ELEMENT of an unreadable id, K6 SEARCH probes masked fields, K8 PREVIEW KML aimed at an unreadable id, K9 policy deny of the delegator does not reach the delegate; non-trivial = the reproduction still shows the finding",
+        "fixed reproductions of the listed findings: K1 reference disclosure, K2 SEARCH scores, K3 SEARCH over-fetch window, K4 AS OF admits by historical classification, K5 HISTORY ELEMENT of an unreadable id, K6 SEARCH probes masked fields, K8 PREVIEW KML aimed at an unreadable id, K9 policy deny of the delegator does not reach the delegate, K10 ENSURE PROPOSITION on the tuple of an unreadable proposition resolves to it, K11 a suspended intermediate delegator does not stop its re-delegation; non-trivial = the reproduction still shows the finding",
         false,
         findings::cases(),
         wrap(findings::run),
